@@ -85,11 +85,21 @@ def replay(ctx, data):
     inp = data["input"]
     hist = inp.get("history") or []
     print(f"function : {inp.get('function')}  (host environment {inp.get('env', 0)})")
+    ph = inp.get("process_history") or []
+    if ph:
+        print(f"process  : {sum(len(g.get('requests', [])) for g in ph)} earlier request(s) on {len(ph)} other package(s) of the "
+              f"same process ({inp.get('process_history_kind')})")
     if hist:
         print(f"history  : {len(hist)} earlier request(s) on the same package ({inp.get('history_kind')})")
     print(f"request  : get_function::<{inp.get('rust_type')}>({inp.get('name')!r})\n"
           f"expected : {inp.get('expected')}\nrecorded : {inp.get('real')}")
-    rep = ctx.harness("c04", ["replay", json.dumps(inp)])
+    import os
+    # the description can be long (a process history carries scripts): hand it over in a file
+    os.makedirs(os.path.join(common.VERIF, "evidence", "replays"), exist_ok=True)
+    path = os.path.join(common.VERIF, "evidence", "replays", ".C04-replay-input.json")
+    with open(path, "w") as f:
+        json.dump(inp, f)
+    rep = ctx.harness("c04", ["replay", "@" + path])
     bad = bool(rep and rep.get("impl_violations"))
     print("replayed : " + ("the real gate still departs from the documented mapping" if bad else "the real gate now agrees with the documented mapping"))
     return 1 if bad else 0
